@@ -18,16 +18,29 @@ if TYPE_CHECKING:
     )
 
 
+_ARGS_KEY = "__args__"
+
+
 class PynencError(Exception):
     """Base class for all Pynenc related errors."""
 
     def _to_json_dict(self) -> dict[str, Any]:
         """:return: a json serializable dictionary"""
+        if not self.__dict__ and self.args:
+            # A plain error (no attributes of its own, e.g. RetryError("why")) is fully
+            # described by its positional arguments: keep them so they survive the trip.
+            try:
+                json.dumps(self.args)
+            except (TypeError, ValueError):
+                return {}
+            return {_ARGS_KEY: list(self.args)}
         return self.__dict__
 
     @classmethod
     def _from_json_dict(cls, json_dict: dict[str, Any]) -> "PynencError":
         """:return: a new error from the serialized json compatible dictionary"""
+        if _ARGS_KEY in json_dict:
+            return cls(*json_dict[_ARGS_KEY])
         return cls(**json_dict)
 
     def to_json(self) -> str:
